@@ -138,7 +138,7 @@ theorem writeFastq_flatten {α : Type} [DecidableEq α] (J : JsonLib α) (sh : U
     simp only [List.map_cons, List.flatten_cons, ih, fqText, writeFastq, formatFastq_eq, toR4]
     rfl
 
-theorem toR4_OK {α : Type} [DecidableEq α] (J : JsonLib α) (sh : UInt8) (hsh : sh = 33 ∨ sh = 64) (x : Record α)
+theorem toR4_OK {α : Type} [DecidableEq α] (J : JsonLib α) (sh : UInt8) (hsh : ShiftOK sh) (x : Record α)
     (hJ : J.OKat (x.ann, x.defn)) (h : WF x) (hq : (qualities x.seq x.qual).length = x.seq.length) :
     OK4 (toR4 J sh x) :=
   ⟨h.id_ne, h.id_noBlank, info_oneLine J _ _ hJ, info_head J _ _ hJ, h.seq_ne, h.seq_ok,
@@ -166,7 +166,7 @@ theorem mapM_readRec4 {α : Type} [DecidableEq α] (J : JsonLib α) (sh : UInt8)
     rw [List.mapM_cons, e, ih (fun x hx => hJ x (List.mem_cons_of_mem _ hx))]
     rfl
 
-theorem write_read_fastq_many_aux {α : Type} [DecidableEq α] (J : JsonLib α) (sh : UInt8) (hsh : sh = 33 ∨ sh = 64)
+theorem write_read_fastq_many_aux {α : Type} [DecidableEq α] (J : JsonLib α) (sh : UInt8) (hsh : ShiftOK sh)
     (rs : List (Record α)) (hJ : ∀ x ∈ rs, J.OKat (x.ann, x.defn)) (h : ∀ x ∈ rs, WF x)
     (hq : ∀ x ∈ rs, (qualities x.seq x.qual).length = x.seq.length) :
     readFastq J sh (rs.map (writeFastq J sh)).flatten
